@@ -206,6 +206,7 @@ type xctx struct {
 	nser int
 	agg  []XAgg // the aggregate results observed (replayed on the Coq model of the file-cursor walk by the driver)
 	zone []ReadObs
+	lim  []ReadObs
 }
 
 // XAgg: the combined result of one call of an aggregate read for one series, as the real store returned it
@@ -292,6 +293,11 @@ func (c *xctx) runRead(x XRead) (fails []XFail) {
 		if err != nil {
 			return []XFail{{Op: c.op, Read: x, What: "decode: " + err.Error()}}
 		}
+		lo := ReadObs{Tmin: a, Tmax: b, Fields: x.Fields, Asc: !x.Desc, Kind: "limit", Need: x.Limit + x.Offset, Rows: map[string][]tsdrv.OutRow{}}
+		for s, rows := range got {
+			lo.Rows[strconv.Itoa(s)] = rows
+		}
+		c.lim = append(c.lim, lo)
 		total, avail := 0, 0
 		for s := 0; s < c.nser; s++ {
 			want := c.expect(s, x.Fields, a, b, x.Desc)
@@ -434,9 +440,9 @@ func (c *xctx) runRead(x XRead) (fails []XFail) {
 }
 
 // extraReads generates and runs one read of every enabled kind and returns the oracle failures.
-func extraReads(opIdx int, sh *tsdrv.Shard, lww *tsdrv.LWW, r *gen.Rand, nser int, files []tsdrv.File, kinds map[string]int) (fails []XFail, n int, aggs []XAgg, zone []ReadObs) {
+func extraReads(opIdx int, sh *tsdrv.Shard, lww *tsdrv.LWW, r *gen.Rand, nser int, files []tsdrv.File, kinds map[string]int) (fails []XFail, n int, aggs []XAgg, zone []ReadObs, lim []ReadObs) {
 	c := &xctx{op: opIdx, sh: sh, lww: lww, nser: nser}
-	defer func() { aggs, zone = c.agg, c.zone }()
+	defer func() { aggs, zone, lim = c.agg, c.zone, c.lim }()
 	only := envKinds()
 	if only["zone"] {
 		a, b := pickRangeX(r, files)
